@@ -2423,6 +2423,47 @@ real_success_harness!(c01_real_ok_unsub_unsuback, 4, 1, 5);
 real_success_harness!(c01_real_ok_q0_written, 0, 3, 0);
 
 
+// @gv props=C01,C06 tier=thorough required=no fns=ProtocolState::reset,ProtocolState::complete_operation_as_failure,complete_operation_with_error
+// @gv bounds="REAL reset (client closed) with the real completion code and callback: one tracked QoS1 publish awaiting its ack (symbolic id), plus leftovers in every other table (a queued id, an inbound QoS2 id, a foreign reservation, an ack-timeout record, armed timers, pending write completion); engine state symbolic"
+// @gv timeout=1200 mem=11 unwind=8 stubs="std::fmt::format -> stub_format"
+#[kani::proof]
+#[kani::unwind(8)]
+#[kani::stub(std::fmt::format, stub_format)]
+fn c01_real_reset_one() {
+    h_reset();
+    let mut st = mk_state(ProtocolStateType::Connected);
+    let (p1, p2): (u16, u16) = (kani::any(), kani::any());
+    kani::assume(p1 != 0 && p2 != 0 && p1 != p2);
+    st.operations.insert(3, mk_recording_op(3, Some(p1), 1, 0));
+    st.allocated_packet_ids.insert(p1, 3);
+    st.pending_publish_operations.insert(p1, 3);
+    st.allocated_packet_ids.insert(p2, 5);
+    st.pending_non_publish_operations.insert(p2, 5);
+    st.qos2_incomplete_incoming_publishes.insert(p2);
+    st.user_operation_queue.push_back(9);
+    st.resubmit_operation_queue.push_back(9);
+    st.high_priority_operation_queue.push_back(9);
+    st.pending_write_completion_operations.push_back(9);
+    st.pending_write_completion = true;
+    st.current_operation = Some(9);
+    st.next_ping_timepoint = Some(at(5)); st.ping_timeout_timepoint = Some(at(6)); st.connack_timeout_timepoint = Some(at(7));
+    st.next_packet_id = kani::any();
+    st.has_connected_successfully = true;
+    st.state = any_state();
+    let was_disconnected = st.state == ProtocolStateType::Disconnected;
+    let now = at(kani::any::<u32>() as u64);
+    st.reset(&now);
+    assert!(h_calls(0) == 1 && h_ok(0) == 0 && h_kind(0) == E_CLIENT_CLOSED, "gv: reset resolves every unresolved operation exactly once with the client-closed error");
+    assert!(st.operations.len() == 0 && st.allocated_packet_ids.len() == 0 && st.pending_publish_operations.len() == 0 && st.pending_non_publish_operations.len() == 0
+        && st.qos2_incomplete_incoming_publishes.len() == 0 && st.operation_ack_timeouts.len() == 0, "gv: nothing stays tracked after reset");
+    assert!(st.user_operation_queue.is_empty() && st.resubmit_operation_queue.is_empty() && st.high_priority_operation_queue.is_empty()
+        && st.pending_write_completion_operations.is_empty() && st.current_operation.is_none() && !st.pending_write_completion, "gv: nothing stays queued after reset");
+    assert!(st.next_ping_timepoint.is_none() && st.ping_timeout_timepoint.is_none() && st.connack_timeout_timepoint.is_none() && st.current_settings.is_none());
+    assert!(st.next_packet_id == 1 && !st.has_connected_successfully);
+    assert!(st.state == if was_disconnected { ProtocolStateType::Disconnected } else { ProtocolStateType::Halted });
+    std::mem::forget(st);
+}
+
 // ------------------------------------------------------------------------------------------------
 // C01 batch completion: one operation's completion error must not leave the rest of the batch unresolved
 // ------------------------------------------------------------------------------------------------
